@@ -29,7 +29,8 @@ CONSTANTS Num10,   \* literal -> integer it denotes as a base-10 integer (domain
           StrRank, \* string -> rank in lexicographic order
           NumF,    \* literal -> rank of the finite float it denotes (order-preserving integer)
           NormF,   \* literal -> normalised float text ("5" -> "5.0")
-          FCanon   \* ToString(rank) -> normalised float text
+          FCanon,  \* ToString(rank) -> normalised float text
+          HexPfx   \* literal -> the same literal with a 0x prefix (as the menuconfig input dialog adds it)
 
 NoVal == "<none>"
 MinI(a, b) == IF a < b THEN a ELSE b
